@@ -386,7 +386,7 @@ def gen_cases(run, rng):
     """-> list of dict(kind, ...inputs...)"""
     quick = run.tier == "quick"
     cases = []
-    la, lb = (4, 4) if quick else (5, 5)
+    la, lb = (4, 4) if quick else (6, 5)
     al = "ab "
     strs = ["".join(p) for k in range(la + 1) for p in itertools.product(al, repeat=k)]
     for a in strs:
@@ -504,6 +504,9 @@ def oracle(c):
             return "%s raised %s on %r" % (k, o[4:], c["d"])
         if t1(o) != t1(c["d"]) or t2(o) != t2(c["d"]):
             return "diff_cleanup%s changed a text: %r -> %r" % ("Semantic" if k == "sem" else "Merge", c["d"], o)
+        # C16_semantic: never an empty segment; C16_merge: none introduced
+        if any(x[1] == "" for x in o) and (k == "sem" or not any(x[1] == "" for x in c["d"])):
+            return "diff_cleanup%s left an empty segment: %r -> %r" % ("Semantic" if k == "sem" else "Merge", c["d"], o)
         return None
     return oracle_realign(c["d"], c["realigned"], c["joined"])
 
@@ -512,9 +515,42 @@ def describe(c):
     return {k: v for k, v in c.items()}
 
 
+MY_VOS = ["theories/%s.vo" % f for f in ("DMP", "DMPBase", "DMPCommon", "DMPMerge", "DMPSemantic", "DMPMain",
+                                         "DMPRealign", "DMPTotal", "DMPTotalMerge", "DMPTotalSem", "DMPTotalMain")]
+
+
+def proof_stage(run):
+    """lib.proof_stage, but building only the files C16 depends on (so that a file of another property that
+    is being edited concurrently cannot break this check); everything else is as in lib.proof_stage."""
+    import os
+    vos = [v for v in MY_VOS if os.path.exists(os.path.join(lib.COQ, v[:-1]))]
+    b = lib.build(targets=vos)
+    info = {"build_ok": b.ok}
+    if not b.ok:
+        info.update({"failed": b.failed_file, "stage": b.stage, "log": b.log[-3000:]})
+        return False, info
+    hits = [h for h in lib.grep_forbidden() if h.split(":")[0] in [v[:-1] for v in vos] + ["theories/Properties/C16.v"]]
+    if hits:
+        info.update({"failed": "forbidden-constructs", "log": "\n".join(hits)})
+        return False, info
+    r = lib.check_property_file("C16")
+    info["theorems"] = r["theorems"]
+    info["checker_cmd"] = "cd coq && make -j16 " + " ".join(vos) + " && " + r["cmd"]
+    if not r["ok"]:
+        info.update({"failed": "Properties/C16.v", "log": r["log"]})
+        return False, info
+    if run.tier == "thorough":
+        ok, out = lib.coqchk("C16")
+        info["coqchk"] = out[-1500:]
+        if not ok:
+            info.update({"failed": "coqchk", "log": out})
+            return False, info
+    return True, info
+
+
 def main(run):
     rng = random.Random(run.seed)
-    ok, pinfo = lib.proof_stage(run, "C16")
+    ok, pinfo = proof_stage(run)
     run.log("proof stage:", "ok" if ok else "BROKEN %s" % pinfo.get("failed"))
     cases, nexh = gen_cases(run, rng)
     for c in cases:
@@ -588,7 +624,7 @@ def main(run):
                 "texts > 100 characters built from lines (line mode), each under a scripted clock (never / always / expires after k tests / random); "
                 "random segment lists (with empty segments and adjacent equalities) for diff_cleanupSemantic and diff_cleanupMerge; "
                 "placeholder texts (balanced, mutated, unbalanced, arbitrary) through a real PlaceholderMaker for the re-balancing step. "
-                "non-trivial = both strings non-empty and different / segment list non-empty" % ((4, 4, nexh) if run.tier == "quick" else (5, 5, nexh)),
+                "non-trivial = both strings non-empty and different / segment list non-empty" % ((4, 4, nexh) if run.tier == "quick" else (6, 5, nexh)),
         "exhaustive_small_scope": nexh,
         "input_distribution": {"group->count": groups, "len(a)+len(b)->count (full cases)": lens,
                                "clock tests answered (total)": sum(c.get("ticks", 0) for c in full),
@@ -605,7 +641,7 @@ def main(run):
         "str.isalnum/isspace are parameters of the model (they only steer the cosmetic scoring); the harness passes the actual classification of the characters in each case",
         "Diff_Timeout = 1.0 and checklines = True as XMLFormatter._make_diff_tags leaves them; the wall clock is an arbitrary oracle (scripted in the harness)",
         "the placeholder table is an arbitrary function code point -> (type, close placeholder); C16_realign assumes the close placeholder of an OPEN entry is registered as CLOSE (PlaceholderMaker.get_placeholder guarantees it)",
-        "C16_semantic: non-emptiness after diff_cleanupSemantic is proved up to the overlap pass and under an explicit side condition for the overlap pass (it is false for arbitrary lists: C16_semantic_nonempty_refuted); on diff_main outputs it is checked by the oracle on every run",
+        "C16_no_error_partial: diff_main's totality is proved relative to `bisect_safe` (diff_bisect's middle-snake search returns and never reports a corner of the grid as split point); on every run the correspondence reports any input on which the model returns an error (out of fuel / index) while the implementation succeeds",
     ]
     lib.conclude(run, ok, pinfo, corr, viols, deeper)
 
